@@ -342,6 +342,32 @@ pub fn copy_cases(n: usize, st: &mut CtStats) -> R {
         ensure!(shadow::live_layout(s2buf).is_none(), "C06", "ctor", "{}: From<String> did not release the String's buffer", what);
     }
     let _ = sbuf;
+    // owned inputs of plain data (no destructor): the source storage must still be released
+    let bx = shadow::tracked(|| Box::new([n as u64, 2, 3, 4, 5]));
+    let bx_addr = &*bx as *const [u64; 5] as usize;
+    let before = shadow::live_count();
+    let fb: Arc<[u64; 5]> = shadow::tracked(|| Arc::from(bx));
+    ensure!(*fb == [n as u64, 2, 3, 4, 5], "C06", "ctor", "{}: From<Box<T>> contents differ", what);
+    let vc = shadow::tracked(|| v.clone());
+    let vc_addr = vc.as_ptr() as usize;
+    let fv: Arc<[u32]> = shadow::tracked(|| Arc::from(vc));
+    ensure!(&*fv == &v[..], "C06", "ctor", "{}: From<Vec<T>> contents differ", what);
+    let vh = shadow::tracked(|| v.clone());
+    let vh_addr = vh.as_ptr() as usize;
+    let fh = shadow::tracked(|| Arc::from_header_and_vec(5u8, vh));
+    ensure!(fh.header == 5 && fh.slice == v[..], "C06", "ctor", "{}: from_header_and_vec contents differ", what);
+    if shadow::active() {
+        ensure!(shadow::live_layout(bx_addr).is_none(), "C06", "ctor", "{}: From<Box<T>> did not release the Box's storage (plain-data T)", what);
+        if n > 0 {
+            ensure!(shadow::live_layout(vc_addr).is_none() && shadow::live_layout(vh_addr).is_none(), "C06", "ctor", "{}: From<Vec<T>> / from_header_and_vec did not release the Vec's buffer (plain-data T)", what);
+        }
+        ensure!(shadow::live_count() == before - 1 + 3, "C06", "ctor", "{}: {} live blocks after three plain-data constructions, expected {}", what, shadow::live_count(), before + 2);
+    }
+    shadow::tracked(|| {
+        drop(fb);
+        drop(fv);
+        drop(fh);
+    });
     let e = shadow::tracked(|| Arc::from_header_and_str(3u64, &s));
     ensure!(e.header == 3 && &e.slice == s.as_str(), "C06", "ctor", "{}: from_header_and_str contents differ", what);
     shadow::tracked(|| {
@@ -358,8 +384,8 @@ pub fn copy_cases(n: usize, st: &mut CtStats) -> R {
         }
         ensure!(shadow::live_count() == 0, "C06", "ctor", "{}: blocks left behind", what);
     }
-    st.counts.add("ctor.copy/str", 6);
-    st.counts.add("ctor.constructions", 6);
+    st.counts.add("ctor.copy/str", 9);
+    st.counts.add("ctor.constructions", 9);
     st.cases.insert(hash64(&format!("copy|{}", n.min(80))));
     Ok(())
 }
